@@ -105,15 +105,20 @@ def judge_hist(s, ev, res):
     except Exception as e:
         res.skipped["event-refused(C10's business):" + common.exc_failure(e)] += 1
         return [], False
+    wrong = None
     try:
         got = xt.read(s.t, s.h)
         if not xt.veq(got, s.mv):
-            res.skipped["post-state-wrong(C10's business)"] += 1
-            return [], False
+            wrong = "post-state-wrong(C10's business)"
     except Exception as e:
-        res.skipped["post-read(C10's business):" + common.exc_failure(e)] += 1
-        return [], False
+        wrong = "post-read(C10's business):" + common.exc_failure(e)
     r = compare(s.t, s.h, res)
+    if wrong and r is None:
+        # handle and views agree on a value that is not the model's: not this property
+        res.skipped[wrong] += 1
+        return [], False
+    if wrong and r is not None:
+        return [common.violation(r[0], r[1], {}, {}, r[2])], False
     if r is None and old_view is not None:
         # the view created before the event must show the same value and structure as the handle
         try:
@@ -144,7 +149,7 @@ def judge_hist(s, ev, res):
     return [], True
 
 
-OPTS = dict(vias=("h", "v", "n"), vals=1, compounds=True, grow=True, deep_leaves=4)
+OPTS = dict(vias=("h", "v", "n"), vals=1, compounds=True, grow=True, deep_leaves=4, resplit=True)
 
 
 def run_shard(shard, tier, seed):
